@@ -10,8 +10,8 @@ import vlib
 
 LEVEL_TEXT = ('Lean 4 theorems, for all shapes/targets/parities: pad (2-D and cubes) is the restriction of the centred zero-extended '
               'array (origin sample floor(m/2) -> floor(S/2), every copied sample keeps its coordinate), its slices are in bounds, '
-              'pad-then-crop is the identity; subarray/boundary/boundary_slice/slice_offset address the stated index sets; rebin '
-              'preserves the sum; the centroid of an array that is half-turn symmetric about a sample is that sample (also for any ring of weights: antialiased values), hence the centroid of a drawn circle / rectangle / hexagon with zero shift is the origin sample floor(n/2) UNDER the hypotheses of the theorem: row 0 of the image is zero when the row count is even and column 0 is zero when the column count is even (the mirror image of index 0 on an even axis falls outside the array; satisfiable: centroid_of_drawn_rectangle_instance, a 2x2 rectangle on 6x6 over Q) (centroid_of_drawn_shapes), the centroid of an indicator '
+              'pad-then-crop is the identity; util.window: its whole decision tree is regenerated from the source (Gen.windowAct) and proved for all arguments to be: one-element input or neither argument -> input unchanged, shape= -> the centred crop/pad (origin floor(n/2) kept, 2-D and cubes), slice= inside the array -> exactly the index set [r0:r1, c0:c1], shape= and slice= -> that view iff shape equals the extent of the slice, AssertionError otherwise (window_dispatch, window_shape_keeps_origin, window_slice_indices, window_passthrough, window3_shape_keeps_origin); subarray/boundary/boundary_slice/slice_offset address the stated index sets; rebin '
+              'preserves the sum; util.centroid is regenerated statement by statement (Gen.centroid: normalisation by the total, np.mgrid lower bounds, grid/np.dot pairing, order of the returned pair) and proved over any field to return (row numerator / total, column numerator / total) of the quantities the following theorems are about (centroid_regenerated); the centroid of an array that is half-turn symmetric about a sample is that sample (also for any ring of weights: antialiased values), hence the centroid of a drawn circle / rectangle / hexagon with zero shift is the origin sample floor(n/2) UNDER the hypotheses of the theorem: row 0 of the image is zero when the row count is even and column 0 is zero when the column count is even (the mirror image of index 0 on an even axis falls outside the array; satisfiable: centroid_of_drawn_rectangle_instance, a 2x2 rectangle on 6x6 over Q) (centroid_of_drawn_shapes), the centroid of an indicator '
               'set is its mean position; mesh coordinates translate under integer '
               'shifts and negate under the half-turn index map; circle/rectangle/hexagon values lie in [0,1], are binary without '
               'antialiasing, translate under integer shifts (also spider) and are half-turn symmetric and mirror symmetric about the origin ROW (hexagons in both orientations; the column mirror of unrotated circles, rectangles and hexagons is their composition: column_mirror_when_unrotated) — via the closure of their six '
@@ -26,22 +26,24 @@ LEVEL_NOTE = ('Trusted: Lean kernel, py2lean subset semantics, NumPy slicing/res
               'real-valued margin to the edge is < 1e-9), generator coverage. Known finding: hex_segments(seg_gap=0, antialias=False) '
               'shares edge pixels between neighbours. Unproven: equal area up to edge sampling (oracle only).')
 TECHNIQUE = 'Lean 4 proof (omega/induction/Finset sums) over translator-regenerated index kernel + hand model with differential correspondence'
-GEN = ['Util', 'Helper', 'Helper20', 'Hex', 'Mesh', 'Extent', 'FieldAccum', 'FieldDispatch', 'FieldIdx', 'FieldMerge']      # every Gen module imported transitively (Model/Field)
+GEN = ['Util', 'UtilWindow', 'UtilCentroid', 'Helper', 'Helper20', 'Hex', 'Mesh', 'Extent', 'FieldAccum', 'FieldDispatch', 'FieldIdx', 'FieldMerge']      # every Gen module imported transitively (Model/Field)
 OPS = ['C20']
 RULE = ('cases: pad of 2-D arrays (all source/target sizes 1..9, every grow/shrink/parity mix) and cubes (depth 1..3, non-square), '
         'subarray incl. windows outside the array, boundary/boundary_slice/slice_offset on sparse integer arrays with thresholds and '
         'pads, rebin (2-D, cubes, non-divisible factors), centroid, hex_ring 0..6, hex_segments (rings 1..3, gaps >= 0, drop lists '
         'with duplicates and out-of-range numbers, both orientations; segment centres, array size and overlap checked for every case, the WHOLE segment cube compared pixel by pixel with the model for rings x radius <= 10 and for one larger aperture in eight in the deeper tiers; also the library defaults antialias=True/pad=2/drop=(0,) compared as a flattened aperture), '
         'cross-helper cases (pad of a drawn shape = the shape drawn larger, crop = sub-array, centroid and bounding box of an integer-shifted shape), float and '
-        'negative-weight centroids, rebin refusals (factor 0, complex), util.window (shape / slice / both / neither / one element / cube), '
+        'negative-weight centroids, rebin refusals (factor 0, complex), util.window (20 cases per quick run over every path of its decision tree: shape / slice / both consistent / both inconsistent (must raise AssertionError) / neither / one element with shape or slice / cube with shape / slices with negative and past-the-end bounds — all compared with the model that executes the regenerated tree), '
         'circle/rectangle/hexagon/spider with dyadic parameters, shifts and rotations, antialiased and binary, incl. shapes much larger '
         'than the array or centred far outside it; boundary data at physical scales 1e-18..1e12; half-turn-symmetric arrays for the '
         'centroid; deeper tiers add arrays up to 3001x3 / 3x4097, int8/int16/uint8/int32/float32 data, a 61-segment aperture; distinct = canonical (kind, shapes, parameters) signature; non-trivial = not the '
         'same-shape/identity case')
-TRUSTED = ['NumPy slicing, reshape(...).sum, np.any/np.where, np.clip/np.minimum semantics as modelled by hand in Model/Geometry.lean',
+TRUSTED = ['util.centroid: np.mgrid[a:nr, b:nc] gives the grids (a + i, b + j), np.dot of two equally raveled arrays is the double sum, np.sum the total (Gen.centroid is built on these; compared at Float on every centroid case)',
+           'util.window: `img = np.asarray(img)` and img.size = product of the shape (checked structurally / modelled as s0*s1); NumPy basic slicing img[a:b, c:d] as modelled by viewSlice/sliceBound',
+           'NumPy slicing, reshape(...).sum, np.any/np.where, np.clip/np.minimum semantics as modelled by hand in Model/Geometry.lean',
            'libm sqrt/sin/cos agree with NumPy to 1e-9 (drawn shapes are compared with the model run at Float)']
 UNPROVEN = ['hex_segments: equal segment area up to edge sampling (checked on the real code by the oracle only)',
-            'util.window (named in the anchors) has NO theorem: its shape= / slice= / both / one-element behaviour is compared with pad / sub-array extraction on generated cases only']
+            'util.window on cubes with slice= has no theorem (not generated either, see assumptions); slices with negative / past-the-end bounds are modelled (sliceBound = Python slice.indices) and compared on generated cases, the theorem window_slice_indices is stated for 0 <= r0 <= r1 <= rows, 0 <= c0 <= c1 <= cols']
 ASSUMPTIONS = ['shape parameters, shifts and radii are dyadic rationals of moderate size so that mesh coordinates are exact in float64',
                'non-overlap is judged on non-antialiased masks; seg_gap = 0 is the recorded known finding KF-C20-hex-gap0-shared-edge',
                'border clearance is stated for pad >= 2 (the default); pad < 2 is not claimed',
@@ -190,6 +192,24 @@ def generate(rng, tier):
             else:
                 out.append({'kind': 'hexagon', 'shape': shp, 'radius': _dy(rng, D, 3 * D) if far else _dy(rng, 2, 7), 'shift': shift,
                             'rotate': bool(rng.integers(0, 2)), 'aa': aa, 'dshift': dshift})
+    # util.window: every path of the regenerated decision tree (Gen.windowAct) in every run
+    WM = ['shape', 'slice', 'both', 'both-bad', 'none', 'one-element', 'one-element-slice', 'cube-shape', 'slice-neg', 'slice']
+    for q in range({'quick': 20, 'thorough': 400, 'search': 120}[tier]):
+        m = (int(rng.integers(2, 10)), int(rng.integers(2, 10)))
+        mode = WM[q % len(WM)]
+        c = {'kind': 'window', 'shape': list(m), 'data': _ints(rng, m[0] * m[1], 1, 9), 'mode': mode,
+             'to': [int(rng.integers(1, 12)), int(rng.integers(1, 12))]}
+        r0, c0 = int(rng.integers(0, m[0])), int(rng.integers(0, m[1]))
+        c['slice'] = [r0, int(rng.integers(r0 + 1, m[0] + 1)), c0, int(rng.integers(c0 + 1, m[1] + 1))]
+        if mode == 'slice-neg':      # negative (from-the-end) and past-the-end bounds: NumPy's slice normalisation
+            c['slice'] = [int(rng.integers(-m[0] - 2, m[0] + 3)), int(rng.integers(-m[0] - 2, m[0] + 3)),
+                          int(rng.integers(-m[1] - 2, m[1] + 3)), int(rng.integers(-m[1] - 2, m[1] + 3))]
+        if mode == 'both': c['to'] = [c['slice'][1] - c['slice'][0], c['slice'][3] - c['slice'][2]]
+        if mode == 'both-bad':
+            ax = int(rng.integers(0, 2)); c['to'] = [c['slice'][1] - c['slice'][0], c['slice'][3] - c['slice'][2]]
+            c['to'][ax] += [-1, 1, 2][int(rng.integers(0, 3))]
+        if mode.startswith('cube'): c['shape'] = [2] + list(m); c['data'] = _ints(rng, 2 * m[0] * m[1], 1, 9)
+        out.append(c)
     if tier in ('search', 'thorough'):
         out += _extremes(rng)
     if tier == 'thorough':
@@ -297,8 +317,9 @@ def impl(c):
             a = _arr(c); md = c['mode']
             if md == 'one-element': a = a.ravel()[:1].reshape(1, 1)
             kw = {}
-            if md in ('shape', 'both', 'cube-shape', 'one-element'): kw['shape'] = tuple(c['to'])
-            if md in ('slice', 'both', 'cube-slice'): kw['slice'] = tuple(c['slice'])
+            if md == 'one-element-slice': a = a.ravel()[:1].reshape(1, 1)
+            if md in ('shape', 'both', 'both-bad', 'cube-shape', 'one-element'): kw['shape'] = tuple(c['to'])
+            if md in ('slice', 'both', 'both-bad', 'cube-slice', 'slice-neg', 'one-element-slice'): kw['slice'] = tuple(c['slice'])
             if md == 'both': kw['shape'] = (c['slice'][1] - c['slice'][0], c['slice'][3] - c['slice'][2])
             r = lentil.util.window(a, **kw)
             return {'shape': list(np.shape(r)), 'data': _il(r)}
@@ -385,9 +406,14 @@ def requests(c, io):
                  'pad': 2, 'drop': [0], 'theta': vlib.fl(_hex_thetas(False)), 'aa': True}]
     if k == 'window':
         md = c['mode']
-        if md == 'shape': return [{'op': 'pad2', 'shape': c['shape'], 'data': c['data'], 'to': c['to']}]
-        if md == 'cube-shape': return [{'op': 'pad3', 'shape': c['shape'], 'data': c['data'], 'to': c['to']}]
-        return []
+        if md == 'cube-shape': return [{'op': 'window3', 'shape': c['shape'], 'data': c['data'], 'to': c['to']}]
+        if md == 'cube-slice': return []
+        rq = {'op': 'window', 'shape': c['shape'], 'data': c['data']}
+        if md.startswith('one-element'): rq['shape'] = [1, 1]; rq['data'] = c['data'][:1]
+        if md in ('shape', 'both', 'both-bad', 'one-element'):
+            rq['to'] = [c['slice'][1] - c['slice'][0], c['slice'][3] - c['slice'][2]] if md == 'both' else c['to']
+        if md in ('slice', 'both', 'both-bad', 'slice-neg', 'one-element-slice'): rq['slice'] = c['slice']
+        return [rq]
     if k == 'spider':
         return [{'op': 'spider', 'shape': c['shape'], 'width': vlib.fbits(c['width']), 'shift': vlib.fl(c['shift']),
                  'angle_rad': vlib.fbits(np.deg2rad(c['angle'])), 'aa': c['aa']}]
@@ -458,7 +484,7 @@ def compare(c, io, mo):
         if not mo: return None
         m = mo[0]
         if 'exc' in io: return f"window raised {io['exc']}: {io.get('msg')}"
-        if io['shape'] != m['shape'] or io['data'] != m['data']: return f"window(shape=...) differs from the pad model: {io['shape']} vs {m['shape']}"
+        if io['shape'] != m['shape'] or io['data'] != m['data']: return f"window({c['mode']}) differs from the model (Gen.windowAct on the array model): {io['shape']} vs {m['shape']}"
         return None
     if k in ('pad2', 'pad3', 'subarray', 'rebin'):
         if io['shape'] != m['shape']: return f"shape: impl {io['shape']} model {m['shape']}"
@@ -472,6 +498,10 @@ def compare(c, io, mo):
         nr, nc, den = m['num']
         for got, num in zip(io['rc'], (nr, nc)):
             if abs(got - num / den) > 1e-9 * (1 + abs(num / den)): return f'centroid {io["rc"]} vs {nr}/{den}, {nc}/{den}'
+        rc = vlib.unfl(m['rc'])
+        for got, want in zip(io['rc'], rc):
+            if not (abs(got - want) <= 1e-9 * (1 + abs(want))) and not (np.isnan(got) and np.isnan(want)):
+                return f'centroid {io["rc"]} vs the regenerated Gen.centroid run at Float {rc}'
         return None
     if k == 'hex_ring':
         return None if io['cells'] == m['cells'] else f"hex_ring({c['k']}): impl {io['cells'][:4]}… model {m['cells'][:4]}…"
@@ -579,11 +609,13 @@ def oracle(c, io):
         want = 'ZeroDivisionError' if c['what'] == 'f0' else 'ValueError'
         return None if io.get('raised') == want else f"rebin({c['what']}): expected {want}, got {io.get('raised')}"
     if k == 'window':
+        if c['mode'] == 'both-bad':
+            return None if io.get('exc') == 'AssertionError' else f"window(shape, slice) with shape != extent of the slice did not refuse: {io.get('exc', io.get('shape'))}"
         if 'exc' in io: return f"window raised {io['exc']}: {io.get('msg')}"
         a = _arr(c); md = c['mode']
-        if md == 'one-element': want = a.ravel()[:1].reshape(1, 1)
+        if md.startswith('one-element'): want = a.ravel()[:1].reshape(1, 1)
         elif md == 'none': want = a
-        elif md in ('slice', 'both', 'cube-slice'):
+        elif md in ('slice', 'both', 'cube-slice', 'slice-neg'):
             sl = c['slice']; want = a[..., sl[0]:sl[1], sl[2]:sl[3]]
         else:
             S = c['to']; want = np.zeros(a.shape[:-2] + tuple(S))
